@@ -261,7 +261,7 @@ func runConfine(c *core.Ctx, sc *scratch, w *confWorld, i, k int, st *struct{ in
 	}
 	e := &sp155{PlatMfrID: 11129, PlatMfrStr: googleMfr, PlatModel: "Google Compute Engine", FwMfrStr: googleMfr, FwMfrID: 11129, FwVersion: "2.7", LocType: locVariable, Loc: loc}
 	logPath := filepath.Join(sc.dir, fmt.Sprintf("d%d.log", i))
-	must(os.WriteFile(logPath, encodeLog([]logEvent{{0, evNoAction, e.encode()}}), 0o644))
+	must(os.WriteFile(logPath, encodeLog([]logEvent{{Type: evNoAction, Data: e.encode()}}), 0o644))
 	defer os.Remove(logPath)
 	var out2 []byte
 	var err2 error
